@@ -47,10 +47,10 @@ Definition dispatch_jws (fn : string) (a : pv) : option pv :=
                                          (arg_s "payload" a) (arg "key" a)))
   else if String.eqb fn "jws_deserialize_compact" then
     Some (jw_res (fun hp => PList [PDict (fst hp); PStr (snd hp)])
-                 (deserialize_compact jw_loads registered jw_prepare jw_verify allow (arg_s "s" a) (arg "key" a)))
+                 (deserialize_compact jw_loads registered jw_prepare jw_verify allow private (arg_s "s" a) (arg "key" a)))
   else if String.eqb fn "jws_deserialize_json" then
     Some (jw_res (fun hp => PList [PList (map PDict (fst hp)); PStr (snd hp)])
-                 (deserialize_json jw_loads registered jw_prepare jw_verify allow (jw_ostr (arg "payload" a)) (arg_b "general" a)
+                 (deserialize_json jw_loads registered jw_prepare jw_verify allow private (jw_ostr (arg "payload" a)) (arg_b "general" a)
                                    (map sigobj_of (arg_l "signatures" a)) (arg "key" a)))
   else if String.eqb fn "jws_sign_all" then
     Some (jw_res (fun l => PList (map pv_of_sigobj l))
